@@ -80,7 +80,9 @@ struct Op {
 };
 
 // I/O fault attached to the at-th operation of a kind.
-//   on = "write": err in ENOSPC EFBIG EIO EINTR short_ENOSPC short_EIO
+//   on = "write": err in ENOSPC EFBIG EIO EINTR short_ENOSPC short_EIO lost_EIO
+//                 (lost_EIO: the write is accepted in full but never reaches the medium - the range keeps its old
+//                 bytes, zeros where the file grew - and the next fsync or close of the handle reports EIO)
 //                 (short_*: `arg` bytes (mod len) are persisted, the
 //                 continuation of the write then fails with that errno)
 //   on = "quota": every write that would extend a file past `arg` bytes
